@@ -56,6 +56,25 @@ type c12Builder struct{ S *c12Str }
 type c12Tuple struct{ Vals []c12Val }
 type c12Nil struct{}
 
+// c12Load is the (unknown) value read from an indexed part of the receiver state, e.g. the cell
+// Model.activeScreen[][] at Idx [r, c], optionally followed by field selections.
+type c12Load struct {
+	Path string
+	Idx  []c12Val
+	Sel  []string
+}
+
+// c12Loop records a loop that was executed generically (one symbolic iteration).
+type c12Loop struct {
+	Sym   string // description of the loop variable's symbol
+	Kind  string // "range" | "for"
+	Over  string // range: key of the ranged reference
+	Init  c12Val // for: value of the variable before the loop
+	Op    string // for: comparison operator, normalised to `var OP bound`
+	Bound c12Val
+	Cond  string
+}
+
 // c12Ref is a reference into the state of the receiver object ("Model.cursor.row").
 type c12Ref struct {
 	Path  string
@@ -158,7 +177,17 @@ func c12Show(v c12Val) string {
 	case c12Nil:
 		return "nil"
 	case c12Ref:
-		return "&" + t.Path
+		k := "&" + t.Path
+		for _, ix := range t.Idx {
+			k += "[" + c12Show(ix) + "]"
+		}
+		return k
+	case c12Load:
+		k := t.Path
+		for _, ix := range t.Idx {
+			k += "[" + c12Show(ix) + "]"
+		}
+		return k + strings.Join(t.Sel, "")
 	}
 	return fmt.Sprintf("%v", v)
 }
@@ -272,6 +301,8 @@ type c12CallRec struct {
 	Call     *ast.CallExpr
 	In       string
 	Inlined  bool
+	NCond    int // number of path conditions recorded before the call
+	Store    map[string]c12Val
 }
 
 type c12Cond struct {
@@ -303,6 +334,7 @@ type c12Path struct {
 	Panics  []string
 	Unsupp  []string
 	Skipped []string
+	Loops   []c12Loop
 	Ret     []c12Val
 }
 
